@@ -22,6 +22,9 @@
 //!   ims.decide      the same, reporting 200 / 304 (compared with Model/Ims.v)
 //!   stream.window   `stream_body()`: announced `content-length`, the bytes really sent, and the
 //!                   framing of the next pipelined response
+//!   c02.ae          one well-formed GET with a given `accept-encoding` value, twice on one connection, to a compressible
+//!                   page (cached handler / uncached handler / file / built-in 404) or a page under the 50-byte floor:
+//!                   status + content-encoding of both answers, compared with `Negotiate.clone_preferred`
 //!   c02.path        one request against a minimal collection; the class of the answer (closed / 409 /
 //!                   400 / 403 / 204 / reply) is compared with the model's `request_path`
 use crate::xval::X;
@@ -70,7 +73,9 @@ pub const STREAM_LENS: [usize; 6] = [0, 1, 10, 1000, 70000, 200000];
 
 fn lang(header: &str) -> &'static str {
     let mut langs = utils::list_header(header);
-    langs.sort_by(|l1, l2| l2.quality.partial_cmp(&l1.quality).unwrap_or(std::cmp::Ordering::Equal));
+    // the example of kvarn's documentation (src/vary.rs), as repaired by dc5aa45: with partial_cmp(..).unwrap_or(Equal) a list of
+    // more than 20 members with NaN weights made slice::sort_by panic ("does not correctly implement a total order")
+    langs.sort_by(|l1, l2| l2.quality.total_cmp(&l1.quality));
     for l in &langs {
         match l.value {
             "sv" => return "sv",
@@ -161,6 +166,16 @@ fn main_extensions() -> Extensions {
             let mut r = Response::new(page.clone());
             r.headers_mut().insert("content-type", HeaderValue::from_static("text/html"));
             FatResponse::cache(r)
+        }),
+    );
+    // the same page, never stored in the response cache: every request compresses it anew
+    let page = text_page();
+    ext.add_prepare_single(
+        "/nc",
+        prepare!(_req, _host, _path, _addr, move |page: Bytes| {
+            let mut r = Response::new(page.clone());
+            r.headers_mut().insert("content-type", HeaderValue::from_static("text/html"));
+            FatResponse::no_cache(r)
         }),
     );
     ext.add_prepare_single(
@@ -965,6 +980,109 @@ fn classify_reply(got: &[u8]) -> X {
     }
 }
 
+// ----------------------------------------------------------------------------------------------------------------
+// c02.ae: the answer to a well-formed request with a given Accept-Encoding value, compared with Negotiate.clone_preferred
+// ----------------------------------------------------------------------------------------------------------------
+
+/// (host, target) of the pages of `Model/Panics.v ae_targets`
+const AE_TARGETS: [(&str, &str); 5] =
+    [("localhost", "/h"), ("localhost", "/nc"), ("localhost", "/index.html"), ("b.example", "/nothing"), ("localhost", "/sub/")];
+
+/// splits the first response (head + `content-length` bytes of body) off `buf`: (status, content-encoding, rest)
+fn split_response(buf: &[u8]) -> Option<(u128, Option<Vec<u8>>, &[u8])> {
+    let p = buf.windows(4).position(|w| w == b"\r\n\r\n")?;
+    let head = String::from_utf8_lossy(&buf[..p]).to_ascii_lowercase();
+    let status: u128 = head.strip_prefix("http/1.1 ")?.split(' ').next()?.parse().ok()?;
+    let header = |name: &str| head.lines().find_map(|l| l.strip_prefix(name).map(|v| v.trim().to_string()));
+    let cl: usize = header("content-length:")?.parse().ok()?;
+    let rest = buf.get(p + 4 + cl..)?;
+    Some((status, header("content-encoding:").map(String::into_bytes), rest))
+}
+
+/// input: (L (B accept-encoding value) (N target)) -> Ok (L answer answer), answer = (L (N status) (L [content-encoding]));
+/// `(L (N 97) (B what))`: a well-formed request was not answered (or not with a well-framed response) although nothing panicked
+fn c02_ae(x: &X) -> X {
+    let l = match x.as_l() {
+        Some(l) if l.len() == 2 => l,
+        _ => return X::bad(),
+    };
+    let (Some(ae), Some(target)) = (l[0].as_b(), l[1].as_n()) else { return X::bad() };
+    let Some((host, path)) = AE_TARGETS.get(target as usize) else { return X::bad() };
+    // only values a header line carries unchanged (the reader strips optional whitespace around the value)
+    if ae.iter().any(|c| (*c < 32 && *c != 9) || *c == 127)
+        || ae.first().map_or(false, |c| *c == b' ' || *c == 9)
+        || ae.last().map_or(false, |c| *c == b' ' || *c == 9)
+    {
+        return X::L(vec![X::N(96)]);
+    }
+    install_hook();
+    let mut one = format!("GET {path} HTTP/1.1\r\nHost: {host}\r\nAccept-Encoding: ").into_bytes();
+    one.extend_from_slice(ae);
+    one.extend_from_slice(b"\r\n\r\n");
+    let mut last = String::new();
+    for _ in 0..3 {
+        match rt().block_on(ae_exchange(one.clone())) {
+            Ok(x) => return x,
+            Err(e) => last = e,
+        }
+    }
+    trouble(&last)
+}
+
+/// request, answer, the same request again, answer: the second request is written only when the first answer has arrived
+/// (what arrives in one segment with a head is not the subject here).  `Err`: the harness could not do its part.
+async fn ae_exchange(one: Vec<u8>) -> Result<X, String> {
+    use tokio::io::{AsyncReadExt, AsyncWriteExt};
+    let before = PANICS.load(Ordering::SeqCst);
+    let (mut client, task) = connect(descriptor()).await?;
+    let mut answers = Vec::new();
+    let mut unanswered = None;
+    let mut buf: Vec<u8> = Vec::new();
+    let mut tmp = vec![0u8; 16 * 1024];
+    'requests: for k in 1..=2 {
+        if client.write_all(&one).await.is_err() {
+            unanswered = Some(format!("request {k} of 2 could not be written: the server had closed the connection"));
+            break;
+        }
+        let _ = client.flush().await;
+        loop {
+            if let Some((status, ce, rest)) = split_response(&buf) {
+                let used = buf.len() - rest.len();
+                answers.push(X::L(vec![X::N(status), X::opt(ce.map(|c| X::b(&c)))]));
+                buf.drain(..used);
+                continue 'requests;
+            }
+            match tokio::time::timeout(Duration::from_secs(30), client.read(&mut tmp)).await {
+                Ok(Ok(0)) | Ok(Err(_)) => {
+                    unanswered = Some(format!(
+                        "request {k} of 2 got no well-framed response: the connection was closed after {:?}",
+                        String::from_utf8_lossy(&buf[..buf.len().min(60)])
+                    ));
+                    break 'requests;
+                }
+                Ok(Ok(n)) => buf.extend_from_slice(&tmp[..n]),
+                Err(_) => {
+                    // a busy machine or a server that never answers: decided by the panic counter below, else not a verdict
+                    unanswered = Some(String::new());
+                    break 'requests;
+                }
+            }
+        }
+    }
+    let _ = client.shutdown().await;
+    drop(client);
+    let joined = tokio::time::timeout(Duration::from_secs(30), task).await;
+    if PANICS.load(Ordering::SeqCst) != before || matches!(&joined, Ok(Err(e)) if e.is_panic()) {
+        return Ok(X::L(vec![X::N(2), X::b(last_panic().as_bytes())]));
+    }
+    match unanswered {
+        Some(what) if what.is_empty() => Err("no answer within 30 s".to_string()),
+        Some(what) => Ok(X::L(vec![X::N(97), X::b(what.as_bytes())])),
+        None if joined.is_err() => Err("connection task still running 30 s after the client closed".to_string()),
+        None => Ok(X::ok(X::L(answers))),
+    }
+}
+
 pub fn dispatch(comp: &str, x: &X) -> Option<X> {
     Some(match comp {
         "explore.conn" => explore_conn(x),
@@ -975,6 +1093,7 @@ pub fn dispatch(comp: &str, x: &X) -> Option<X> {
         "ims.decide" => ims_decide(x),
         "stream.window" => stream_window(x),
         "c02.path" => c02_path(x),
+        "c02.ae" => c02_ae(x),
         // debugging aid: the raw bytes the main collection answers
         "debug.raw" => match parse_conn_input(x) {
             Some((data, chunks, rd)) => {
